@@ -1,0 +1,211 @@
+//go:build verif
+
+// Contracts for /verif (build tag "verif"): //@ comment blocks and pure ghost functions only.
+package binary
+
+import (
+	"bytes"
+
+	"github.com/tetratelabs/wazero/api"
+	"github.com/tetratelabs/wazero/internal/wasm"
+)
+
+var (
+	_ *bytes.Reader
+	_ api.CoreFeatures
+	_ *wasm.Code
+)
+
+// readerOK: the representation invariant of bytes.Reader (its read index is within the data).
+func readerOK(r *bytes.Reader) bool {
+	return r != nil && 0 <= verif_field_int(r, "i") && verif_field_int(r, "i") <= verif_field_len(r, "s")
+}
+
+// remaining: bytes of input not yet consumed.
+func remaining(r *bytes.Reader) uint64 { return uint64(verif_field_len(r, "s") - verif_field_int(r, "i")) }
+
+// Every section / entry decoder, for ANY remaining input bytes: no Go run-time panic (index, slice,
+// nil, conversion, make with a bad size) and no single allocation larger than 64 bytes per remaining
+// input byte + 4 KiB. Zero-annotation safety sweep: the obligations that discharge on the pinned
+// tree are claimed individually (/verif/baseline/C03.json).
+//@ prop C03
+
+//@ func decodeCode(r *bytes.Reader, codeSectionStart uint64, ret *wasm.Code) (err error)
+//@   requires readerOK(r)
+//@   sweep
+//@   alloc-bound 64*remaining(r) + 4096
+
+//@ func decodeConstantExpression(r *bytes.Reader, enabledFeatures api.CoreFeatures, ret *wasm.ConstantExpression) error
+//@   requires readerOK(r)
+//@   sweep
+//@   alloc-bound 64*remaining(r) + 4096
+
+//@ func decodeCustomSection(r *bytes.Reader, name string, limit uint64) (result *wasm.CustomSection, err error)
+//@   requires readerOK(r)
+//@   sweep
+//@   alloc-bound 64*remaining(r) + 4096
+
+//@ func decodeDataSegment(r *bytes.Reader, enabledFeatures api.CoreFeatures, ret *wasm.DataSegment) (err error)
+//@   requires readerOK(r)
+//@   sweep
+//@   alloc-bound 64*remaining(r) + 4096
+
+//@ func ensureElementKindFuncRef(r *bytes.Reader) error
+//@   requires readerOK(r)
+//@   sweep
+//@   alloc-bound 64*remaining(r) + 4096
+
+//@ func decodeElementInitValueVector(r *bytes.Reader) ([]wasm.Index, error)
+//@   requires readerOK(r)
+//@   sweep
+//@   alloc-bound 64*remaining(r) + 4096
+
+//@ func decodeElementConstExprVector(r *bytes.Reader, elemType wasm.RefType, enabledFeatures api.CoreFeatures) ([]wasm.Index, error)
+//@   requires readerOK(r)
+//@   sweep
+//@   alloc-bound 64*remaining(r) + 4096
+
+//@ func decodeElementRefType(r *bytes.Reader) (ret wasm.RefType, err error)
+//@   requires readerOK(r)
+//@   sweep
+//@   alloc-bound 64*remaining(r) + 4096
+
+//@ func decodeElementSegment(r *bytes.Reader, enabledFeatures api.CoreFeatures, ret *wasm.ElementSegment) error
+//@   requires readerOK(r)
+//@   sweep
+//@   alloc-bound 64*remaining(r) + 4096
+
+//@ func decodeExport(r *bytes.Reader, ret *wasm.Export) (err error)
+//@   requires readerOK(r)
+//@   sweep
+//@   alloc-bound 64*remaining(r) + 4096
+
+//@ func decodeFunctionType(enabledFeatures api.CoreFeatures, r *bytes.Reader, ret *wasm.FunctionType) (err error)
+//@   requires readerOK(r)
+//@   sweep
+//@   alloc-bound 64*remaining(r) + 4096
+
+//@ func decodeGlobal(r *bytes.Reader, enabledFeatures api.CoreFeatures, ret *wasm.Global) (err error)
+//@   requires readerOK(r)
+//@   sweep
+//@   alloc-bound 64*remaining(r) + 4096
+
+//@ func decodeGlobalType(r *bytes.Reader) (wasm.GlobalType, error)
+//@   requires readerOK(r)
+//@   sweep
+//@   alloc-bound 64*remaining(r) + 4096
+
+//@ func decodeImport(r *bytes.Reader, idx uint32, memorySizer memorySizer, memoryLimitPages uint32, enabledFeatures api.CoreFeatures, ret *wasm.Import) (err error)
+//@   requires readerOK(r)
+//@   sweep
+//@   alloc-bound 64*remaining(r) + 4096
+
+//@ func decodeLimitsType(r *bytes.Reader) (min uint32, max *uint32, shared bool, err error)
+//@   requires readerOK(r)
+//@   sweep
+//@   alloc-bound 64*remaining(r) + 4096
+
+//@ func decodeMemory(r *bytes.Reader, enabledFeatures api.CoreFeatures, memorySizer func(minPages uint32, maxPages *uint32) (min, capacity, max uint32), memoryLimitPages uint32) (*wasm.Memory, error)
+//@   requires readerOK(r)
+//@   sweep
+//@   alloc-bound 64*remaining(r) + 4096
+
+//@ func decodeNameSection(r *bytes.Reader, limit uint64) (result *wasm.NameSection, err error)
+//@   requires readerOK(r)
+//@   sweep
+//@   alloc-bound 64*remaining(r) + 4096
+
+//@ func decodeFunctionNames(r *bytes.Reader) (wasm.NameMap, error)
+//@   requires readerOK(r)
+//@   sweep
+//@   alloc-bound 64*remaining(r) + 4096
+
+//@ func decodeLocalNames(r *bytes.Reader) (wasm.IndirectNameMap, error)
+//@   requires readerOK(r)
+//@   sweep
+//@   alloc-bound 64*remaining(r) + 4096
+
+//@ func decodeFunctionIndex(r *bytes.Reader, subsectionID uint8) (uint32, error)
+//@   requires readerOK(r)
+//@   sweep
+//@   alloc-bound 64*remaining(r) + 4096
+
+//@ func decodeFunctionCount(r *bytes.Reader, subsectionID uint8) (uint32, error)
+//@   requires readerOK(r)
+//@   sweep
+//@   alloc-bound 64*remaining(r) + 4096
+
+//@ func decodeTypeSection(enabledFeatures api.CoreFeatures, r *bytes.Reader) ([]wasm.FunctionType, error)
+//@   requires readerOK(r)
+//@   sweep
+//@   alloc-bound 64*remaining(r) + 4096
+
+//@ func decodeImportSection(r *bytes.Reader, memorySizer memorySizer, memoryLimitPages uint32, enabledFeatures api.CoreFeatures) (result []wasm.Import, perModule map[string][]*wasm.Import, funcCount, globalCount, memoryCount, tableCount wasm.Index, err error)
+//@   requires readerOK(r)
+//@   sweep
+//@   alloc-bound 64*remaining(r) + 4096
+
+//@ func decodeFunctionSection(r *bytes.Reader) ([]uint32, error)
+//@   requires readerOK(r)
+//@   sweep
+//@   alloc-bound 64*remaining(r) + 4096
+
+//@ func decodeTableSection(r *bytes.Reader, enabledFeatures api.CoreFeatures) ([]wasm.Table, error)
+//@   requires readerOK(r)
+//@   sweep
+//@   alloc-bound 64*remaining(r) + 4096
+
+//@ func decodeMemorySection(r *bytes.Reader, enabledFeatures api.CoreFeatures, memorySizer memorySizer, memoryLimitPages uint32) (*wasm.Memory, error)
+//@   requires readerOK(r)
+//@   sweep
+//@   alloc-bound 64*remaining(r) + 4096
+
+//@ func decodeGlobalSection(r *bytes.Reader, enabledFeatures api.CoreFeatures) ([]wasm.Global, error)
+//@   requires readerOK(r)
+//@   sweep
+//@   alloc-bound 64*remaining(r) + 4096
+
+//@ func decodeExportSection(r *bytes.Reader) ([]wasm.Export, map[string]*wasm.Export, error)
+//@   requires readerOK(r)
+//@   sweep
+//@   alloc-bound 64*remaining(r) + 4096
+
+//@ func decodeStartSection(r *bytes.Reader) (*wasm.Index, error)
+//@   requires readerOK(r)
+//@   sweep
+//@   alloc-bound 64*remaining(r) + 4096
+
+//@ func decodeElementSection(r *bytes.Reader, enabledFeatures api.CoreFeatures) ([]wasm.ElementSegment, error)
+//@   requires readerOK(r)
+//@   sweep
+//@   alloc-bound 64*remaining(r) + 4096
+
+//@ func decodeCodeSection(r *bytes.Reader) ([]wasm.Code, error)
+//@   requires readerOK(r)
+//@   sweep
+//@   alloc-bound 64*remaining(r) + 4096
+
+//@ func decodeDataSection(r *bytes.Reader, enabledFeatures api.CoreFeatures) ([]wasm.DataSegment, error)
+//@   requires readerOK(r)
+//@   sweep
+//@   alloc-bound 64*remaining(r) + 4096
+
+//@ func decodeDataCountSection(r *bytes.Reader) (count *uint32, err error)
+//@   requires readerOK(r)
+//@   sweep
+//@   alloc-bound 64*remaining(r) + 4096
+
+//@ func decodeTable(r *bytes.Reader, enabledFeatures api.CoreFeatures, ret *wasm.Table) (err error)
+//@   requires readerOK(r)
+//@   sweep
+//@   alloc-bound 64*remaining(r) + 4096
+
+//@ func decodeValueTypes(r *bytes.Reader, num uint32) ([]wasm.ValueType, error)
+//@   requires readerOK(r)
+//@   sweep
+//@   alloc-bound 64*remaining(r) + 4096
+
+//@ func decodeUTF8(r *bytes.Reader, contextFormat string, contextArgs ...interface{}) (string, uint32, error)
+//@   requires readerOK(r)
+//@   sweep
+//@   alloc-bound 64*remaining(r) + 4096
